@@ -107,6 +107,13 @@ def parse_content_disposition(
     def unescape(text: str, *, chars: str = "".join(map(re.escape, CHAR))) -> str:
         return re.sub(f"\\\\([{chars}])", "\\1", text)
 
+    def strip_path(key: str, value: str) -> str:
+        # A file name must not start with a path separator; any other
+        # parameter (a field name) is delivered as it was sent.
+        if key == "filename" or key.startswith("filename*"):
+            return value.lstrip("\\/")
+        return value
+
     if not header:
         return None, {}
 
@@ -157,7 +164,7 @@ def parse_content_disposition(
                 continue
 
             try:
-                value = unquote(value, encoding, "strict").lstrip("\\/")
+                value = strip_path(key, unquote(value, encoding, "strict"))
             except (builtins.LookupError, UnicodeDecodeError):
                 # The charset is attacker-controlled here; an unknown name
                 # raises the builtin LookupError (the bare name is shadowed in
@@ -170,7 +177,7 @@ def parse_content_disposition(
             rstripped = value.rstrip()
             if is_quoted(rstripped):
                 failed = False
-                value = unescape(rstripped[1:-1].lstrip("\\/"))
+                value = unescape(strip_path(key, rstripped[1:-1]))
             elif is_token(value):
                 failed = False
             elif parts and value.startswith('"'):
@@ -181,7 +188,7 @@ def parse_content_disposition(
                     _value = f"{_value};{piece}"
                     if is_quoted(_value.rstrip()):
                         del parts[:taken]
-                        value = unescape(_value.rstrip()[1:-1].lstrip("\\/"))
+                        value = unescape(strip_path(key, _value.rstrip()[1:-1]))
                         failed = False
                         break
 
